@@ -1530,6 +1530,110 @@ type lFile struct {
 	Path    string
 	Entries []lEntry
 	Missing bool // the file is referenced but does not exist
+	Lay     *lLayout
+}
+
+// lLayout is the byte-level shape of a file around its entries: how the file begins, what stands between two
+// entries, how the file ends (no final newline, trailing blanks, CRLF, blank lines, a comment without newline), and
+// how an include line is spelled. The loader's result must not depend on any of it: the journal is the union of the
+// directives of all files of the tree whatever the bytes between the directives are.
+type lLayout struct {
+	Head      string   // before the first entry
+	Seps      []string // after entry k (k < last); a transaction gets its line end and blank line in addition
+	Tail      string   // after the last entry (after Head in a file without entries)
+	IncSp     []string // per entry: the blanks between `include` and the quote
+	IncDot    []bool   // per entry: the include path is spelled ./path
+	ExtraLast bool     // root file: the extra open line is the last directive, not the first
+}
+
+var (
+	c19Heads = []string{"", "", "", "\n", "\n\n\n", " \n", "\t\r\n", "\r\n", "# head\n", "* heading\r\n\r\n", "// c\n\n", "#\n", "  \t \n\n"}
+	c19Seps  = []string{"\n", "\n", "\n\n", "\n\n", "\r\n", "\r\n\r\n", " \n", "\t \r\n \n", "\n# c\n", "\n\n\n\n\n", "  \n// x\r\n* y\n", "\n#\n\n"}
+	// file ends: nothing at all after the last directive, blanks only, one line end, many, a comment with and without line end
+	c19Tails = []string{"", "", "", "", " ", "\t", "\r", "  \t ", "\n", "\n", "\r\n", "\n\n\n", "\n \n\t", "\n# end", "\n// end\r\n", "\n* end\r", " \n#", "\r\n\r\n "}
+	c19IncSp = []string{" ", " ", " ", "  ", "\t", " \t "}
+)
+
+// c19Layout draws a layout for every file of the tree and, in some trees, moves the includes of a file to its
+// beginning or its end (include as first / last / only directive).
+func c19Layout(r *RNG, t *lTree) {
+	mode := r.Intn(4) // 0, 1: includes stay where they are; 2: towards the end; 3: towards the beginning
+	for i := range t.Files {
+		f := &t.Files[i]
+		if f.Missing {
+			continue
+		}
+		if mode >= 2 && r.Bool() {
+			var incs, rest []lEntry
+			for _, e := range f.Entries {
+				if e.Dir == nil && !e.Syntax && !e.Model {
+					incs = append(incs, e)
+				} else {
+					rest = append(rest, e)
+				}
+			}
+			if mode == 2 {
+				f.Entries = append(rest, incs...)
+			} else {
+				f.Entries = append(incs, rest...)
+			}
+		}
+		l := &lLayout{Head: Pick(r, c19Heads), Tail: Pick(r, c19Tails), ExtraLast: r.Bool()}
+		plain := r.Chance(1, 4) // a quarter of the files: one line end between the entries, the file end still varies
+		for range f.Entries {
+			if plain {
+				l.Seps = append(l.Seps, "\n")
+			} else {
+				l.Seps = append(l.Seps, Pick(r, c19Seps))
+			}
+			l.IncSp = append(l.IncSp, Pick(r, c19IncSp))
+			l.IncDot = append(l.IncDot, r.Chance(1, 5))
+		}
+		f.Lay = l
+	}
+}
+
+// c19After is what follows a directive whose text ends without a line end: sep as it is, except that a transaction
+// ends only at a blank line or at the end of the file (the line after its last booking is read as another booking
+// otherwise), so a blank line is put in where sep has none.
+func c19After(trx, last bool, sep string) string {
+	if !trx {
+		return sep
+	}
+	nl := strings.IndexByte(sep, '\n')
+	if nl < 0 {
+		if last {
+			return sep // blanks up to the end of the file
+		}
+		return sep + "\n\n"
+	}
+	rest := sep[nl+1:]
+	if rest == "" {
+		if last {
+			return sep
+		}
+		return sep + "\n"
+	}
+	line := rest
+	if k := strings.IndexByte(rest, '\n'); k >= 0 {
+		line = rest[:k]
+	}
+	if strings.Trim(line, " \t\r") == "" {
+		return sep
+	}
+	return sep[:nl+1] + "\n" + rest
+}
+
+// layField renders the layouts for the recorded input of a case.
+func (t lTree) layField() string {
+	var parts []string
+	for i, f := range t.Files {
+		if f.Lay == nil {
+			continue
+		}
+		parts = append(parts, fmt.Sprintf("%d=%q/%q/%q/%v", i, f.Lay.Head, strings.Join(f.Lay.Seps, "|"), f.Lay.Tail, f.Lay.ExtraLast))
+	}
+	return strings.Join(parts, ";")
 }
 
 type lTree struct {
@@ -1671,6 +1775,7 @@ func genTree(r *RNG, kind string) lTree {
 		insertAt(victim, lEntry{Include: nf})
 		insertAt(r.Intn(nf), lEntry{Include: nf})
 	}
+	c19Layout(r, &t)
 	return t
 }
 
@@ -1690,27 +1795,65 @@ func (t lTree) write(dir string) {
 		if f.Missing {
 			continue
 		}
-		var b strings.Builder
-		if i == 0 {
-			b.WriteString(c19RootExtra)
-		}
-		for _, e := range f.Entries {
-			switch {
-			case e.Syntax:
-				b.WriteString("2020-01-01 opeen Assets:Oops\n")
-			case e.Model:
-				b.WriteString(fmt.Sprintf("%s open Foo:Bar\n", c19Date(e.Dir.Day)))
-			case e.Dir != nil:
-				b.WriteString(e.Dir.text())
-			default:
-				b.WriteString(fmt.Sprintf("include \"%s\"\n", relPath(f.Path, t.Files[e.Include].Path)))
-			}
-			b.WriteString("\n")
-		}
 		p := filepath.Join(dir, f.Path)
 		os.MkdirAll(filepath.Dir(p), 0o755)
-		os.WriteFile(p, []byte(b.String()), 0o644)
+		os.WriteFile(p, []byte(t.content(i)), 0o644)
 	}
+}
+
+// content is the text of file i: its entries in the file's layout.
+func (t lTree) content(i int) string {
+	f := t.Files[i]
+	l := f.Lay
+	if l == nil {
+		l = &lLayout{}
+	}
+	var b strings.Builder
+	b.WriteString(l.Head)
+	extra := i == 0
+	if extra && !(l.ExtraLast && len(f.Entries) > 0) {
+		b.WriteString(c19RootExtra)
+		extra = false
+	}
+	for k, e := range f.Entries {
+		last := k == len(f.Entries)-1 && !extra
+		sep := "\n\n"
+		if k < len(l.Seps) {
+			sep = l.Seps[k]
+		}
+		if k == len(f.Entries)-1 && f.Lay != nil {
+			if !extra { // else the extra line follows
+				sep = l.Tail
+			}
+		}
+		var text string
+		switch {
+		case e.Syntax:
+			text = "2020-01-01 opeen Assets:Oops"
+		case e.Model:
+			text = fmt.Sprintf("%s open Foo:Bar", c19Date(e.Dir.Day))
+		case e.Dir != nil:
+			text = strings.TrimSuffix(e.Dir.text(), "\n")
+		default:
+			sp, path := " ", relPath(f.Path, t.Files[e.Include].Path)
+			if k < len(l.IncSp) {
+				sp = l.IncSp[k]
+				if l.IncDot[k] {
+					path = "./" + path
+				}
+			}
+			text = fmt.Sprintf("include%s\"%s\"", sp, path)
+		}
+		b.WriteString(text)
+		b.WriteString(c19After(e.Dir != nil && !e.Model && e.Dir.Kind == 2, last, sep))
+	}
+	if extra {
+		b.WriteString(strings.TrimSuffix(c19RootExtra, "\n"))
+		b.WriteString(l.Tail)
+	} else if len(f.Entries) == 0 {
+		b.WriteString(l.Tail)
+	}
+	return b.String()
 }
 
 func (t lTree) fsField() string {
@@ -1948,12 +2091,13 @@ func (c *Ctx) c19LoaderRun(stream string, jobs []*loaderJob) []int {
 		}
 	})
 	bt := c.NewBatch()
+	var after []func()
 	for _, jb := range jobs {
 		jb := jb
 		i := jb.Index
 		c.Evals++
 		files := map[string]string{}
-		in := map[string]any{"kind": jb.Tree.Kind, "fs": jb.Tree.fsField(), "root": jb.Tree.Files[0].Path, "race": jb.Race}
+		in := map[string]any{"kind": jb.Tree.Kind, "fs": jb.Tree.fsField(), "layout": jb.Tree.layField(), "root": jb.Tree.Files[0].Path, "race": jb.Race}
 		_ = files
 		c.Class(fmt.Sprintf(stream+"/%s/files%s/race%v", jb.Tree.Kind, nbucket(len(jb.Tree.Files)), jb.Race))
 		all := append([]procResult{jb.base}, jb.runs...)
@@ -1961,7 +2105,7 @@ func (c *Ctx) c19LoaderRun(stream string, jobs []*loaderJob) []int {
 		for k, pr := range all {
 			in2 := in
 			if k > 0 {
-				in2 = map[string]any{"kind": jb.Tree.Kind, "fs": jb.Tree.fsField(), "root": jb.Tree.Files[0].Path, "race": jb.Race, "KNUT_VERIF_SEED": jb.Seeds[k-1]}
+				in2 = map[string]any{"kind": jb.Tree.Kind, "fs": jb.Tree.fsField(), "layout": jb.Tree.layField(), "root": jb.Tree.Files[0].Path, "race": jb.Race, "KNUT_VERIF_SEED": jb.Seeds[k-1]}
 			}
 			if !c.Monitor(stream, i, "C19_no_deadlock (loader terminates)", in2, !pr.Timeout, "timeout: knut print hung") {
 				implOutcomes = append(implOutcomes, "hang")
@@ -2002,13 +2146,19 @@ func (c *Ctx) c19LoaderRun(stream string, jobs []*loaderJob) []int {
 			}
 		}, "c19load", jb.Tree.fsField(), "0")
 		if jb.Tree.Kind == "valid" && !jb.cat.Timeout {
-			ds, err := parsePrint(jb.cat.Stdout)
-			ok := err == nil && jb.cat.Exit == 0 && censusOf(ds) == implOutcomes[0]
-			c.Monitor(stream, i, "include tree loads the same journal as the concatenated file", in, ok,
-				fmt.Sprintf("tree: %s\nsingle file (exit %d): %s %s", clip(implOutcomes[0]), jb.cat.Exit, clip(censusOf(ds)), clip(jb.cat.Stderr)))
+			// after the batch, so that a failure of the property's own predicate (c19loadmon) is the first one recorded
+			after = append(after, func() {
+				ds, err := parsePrint(jb.cat.Stdout)
+				ok := err == nil && jb.cat.Exit == 0 && censusOf(ds) == implOutcomes[0]
+				c.Monitor(stream, i, "include tree loads the same journal as the concatenated file", in, ok,
+					fmt.Sprintf("tree: %s\nsingle file (exit %d): %s %s", clip(implOutcomes[0]), jb.cat.Exit, clip(censusOf(ds)), clip(jb.cat.Stderr)))
+			})
 		}
 	}
 	bt.Flush()
+	for _, f := range after {
+		f()
+	}
 	seen := map[int]bool{}
 	var suspects []int
 	for _, f := range c.Findings {
